@@ -8,8 +8,9 @@ import Poulpy.Lemmas.BlindMachine
 `vlib/c14.py` section G).  The theorems below are about that executed code: `Core.Blind.bbLoop` (the block loop of
 `execute_block_binary`) and `Core.Blind.executeBlockBinary`; no contract is left — what is asked is
 
-* of the parameters (`BlindMachine.BrOk`, decidable): same-radix accumulator covered by the gadget (`rs ≤ dnum ≤ S`, `dsize = 1` — the blind
-  rotation key always has `dsize = 1`), radix `≤ 60`, head-room of the big accumulator for blocks of at most `L` bits;
+* of the parameters (`BlindMachine.BrOk`, decidable): accumulator and key in one radix `≤ 60`, `rs ≤ S` accumulator limbs, `dnum ≤ S` key rows
+  (`rs > dnum` allowed — the crate's bootstrap has `rs = 5`, `dnum = 4`: the un-multiplied tail limbs are part of the error bound), `dsize = 1`
+  (the blind rotation key always has `dsize = 1`), head-room of the big accumulator for blocks of at most `L` bits;
 * of the key elements (`CmuxMachine.Good`): shape, digit bound and the key relation of C01 (`KeyWellFormed`, produced by
   `C01.blind_rotation_key_encrypt_sk_wellformed` through `CmuxMachine.good_of_wellformed`) with errors bounded by `BE`;
 * of the accumulator (`CmuxMachine.WfC`): shape and digits `≤ 2^b − 1` (what every block returns; the initial accumulator is the rotated table);
@@ -42,7 +43,8 @@ theorem totalRot_eq (p : Par) (L : Nat) (hok : BrOk p L) (hN2 : 2 * p.N < 2 ^ 62
 /-- **`blind_rotation_noise_executed`** — the executed block loop of `execute_block_binary` (every block length `≤ L`, every number of blocks,
 one-hot blocks, good key elements, well-formed initial accumulator) RETURNS, its result is again a well-formed accumulator, and
 `phase(res) = X^{Σ a_i s_i}·phase(acc₀) + e` with `ν(e) ≤ 2·n_lwe·brB + (#blocks)·brU` — linear in `n_lwe`;
-`brB = 2^(b·rs)·(rank+1)·dnum·N·(2^b − 1)·BE`, `brU = (1 + Σ‖s_i‖₁)·normTol` (`0` when nothing is dropped). -/
+`brB = 2^(b·rs)·(rank+1)·dnum·N·(2^b − 1)·BE + 2^(b·S)·truncBound` (the second term, the accumulator limbs beyond the key rows, is `0` when
+`rs ≤ dnum`), `brU = (1 + Σ‖s_i‖₁)·normTol` (`0` when nothing is dropped). -/
 theorem blind_rotation_noise_executed (p : Par) (L : Nat) (hok : BrOk p L) (hN2 : 2 * p.N < 2 ^ 62)
     (acc0 : List Col) (hacc : WfC p acc0) (blocks : List (List (Int × GBit p.N)))
     (hlen : ∀ blk ∈ blocks, blk.length ≤ L) (hgood : ∀ blk ∈ blocks, ∀ x ∈ blk, Good p x.2 ∧ |x.1| < 2 ^ 62)
@@ -237,6 +239,11 @@ theorem cbt_gives_ggsw_noise_executed (p : Par) (L : Nat) (hok : BrOk p L) (hN2 
 /-- the numeric side conditions hold at the parameters of the crate's blind-rotation test (`N = 2048`, radix `19`, rank `1`, two rows, three
 key limbs, two accumulator limbs, balanced key digits) for blocks of up to `8` bits on the `i64` accumulator -/
 example : BrOk { N := 2048, b := 19, rs := 2, rank := 1, dnum := 2, dsize := 1, S := 3, big128 := false, sk := [[]], Dm := 2 ^ 18, BE := 2 ^ 20 } 8 := by
+  decide
+
+/-- … and at the parameters of the blind rotation inside the crate's circuit bootstrapping (`TestContext`: `N = 256`, rank 2, key of 4 rows of radix
+`2^12` on 52 bits = 5 limbs, accumulator in the key's layout = 5 limbs > 4 rows, blocks of 7 bits) -/
+example : BrOk { N := 256, b := 12, rs := 5, rank := 2, dnum := 4, dsize := 1, S := 5, big128 := false, sk := [[], []], Dm := 2 ^ 11, BE := 2 ^ 20 } 7 := by
   decide
 
 /-- a toy parameter set on which every hypothesis of the theorems can be exhibited: `N = 1`, rank `0`, one row, one limb, radix `4` -/
